@@ -368,13 +368,13 @@ contract(
     loops={0: dict(
         vars=dict(peakLoc=VecT(Int, kind="list"), maxSuspect=Opt(Int), minSuspect=Opt(Int)),
         inv=[("positions_so_far", "forall(0, len(peakLoc), lambda j: 1 <= peakLoc[j] and peakLoc[j] < K and "
-                                  "implies(j + 1 < len(peakLoc), peakLoc[j] < peakLoc[j + 1]))".replace("K", _K)),
+                                  "forall(0, len(peakLoc), lambda j2: implies(j < j2, peakLoc[j] < peakLoc[j2])))".replace("K", _K)),
              ("open_maximum_plateau", _SUSPECT.replace("SV", "maxSuspect").replace("SIGN", ">").replace("K", _K)),
              ("open_minimum_plateau", _SUSPECT.replace("SV", "minSuspect").replace("SIGN", "<").replace("K", _K))])},
     ensures=[
         # the breakpoint candidates are interior positions in strictly increasing order (no position twice)
         ("interior_positions", "forall(0, len(result), lambda j: 1 <= result[j] and result[j] <= len(signal) - 2)"),
-        ("strictly_increasing", "forall(0, len(result), lambda j: implies(j + 1 < len(result), result[j] < result[j + 1]))"),
+        ("strictly_increasing", "forall(0, len(result), lambda a: forall(0, len(result), lambda b: implies(a < b, result[a] < result[b])))"),
     ],
     props=("C03",), domain="skip",
     canaries=[("first_index_considered", "for k in range(1, len(signal) - 1):", "for k in range(0, len(signal) - 1):"),
@@ -387,7 +387,7 @@ contract(
 )
 
 _JL = "joinedLevel"
-_INC = "forall(0, len(V), lambda j: implies(j + 1 < len(V), V[j] < V[j + 1]))"
+_INC = "forall(0, len(V), lambda a: forall(0, len(V), lambda b: implies(a < b, V[a] < V[b])))"
 _FROM = ("forall(0, len(V), lambda j: exists(0, len(baseLevel), lambda b: V[j] == baseLevel[b]) or "
          "exists(0, len(addonLevel), lambda a: V[j] == addonLevel[a]))")
 _BASES_IN = "forall(0, BI, lambda b: exists(0, len(V), lambda j: V[j] == baseLevel[b]))"
@@ -429,4 +429,64 @@ contract(
               ("tail_not_skipped", "while addon_idx < len(addonLevel) and addonLevel[addon_idx] <= last_pos:", "while False:")],
     notes="merging two levels of breakpoints: the result is strictly increasing (no breakpoint twice, so no empty segment), "
           "made of input positions only and keeps every base-level breakpoint; sorted() of an ordered list is the list",
+)
+
+contract("cnvlib/segmentation/haar.py::HaarConv", params=dict(signal=VecT(Real), weight=Opt(VecT(Real)), stepHalfSize=Int),
+         returns=VecT(Real), trusted=True, requires=[], ensures=[("same_length", "len(result) == len(signal)")],
+         props=(), domain="skip", notes="assumed: the convolved signal has the signal's length (the wavelet numerics are bounded only)")
+contract("cnvlib/segmentation/haar.py::FDRThres", params=dict(x=VecT(Real), q=Real, stdev=Real), returns=Real, trusted=True,
+         requires=[], ensures=[], props=(), domain="skip", notes="assumed: some threshold")
+contract("cnvlib/segmentation/haar.py::SegmentByPeaks", params=dict(data=VecT(Real), peaks=VecT(Int), weights=Opt(VecT(Real))),
+         returns=VecT(Real), trusted=True, requires=[], ensures=[("same_length", "len(result) == len(data)")],
+         props=(), domain="skip", notes="assumed: one value per probe")
+
+_ST, _ED, _SZ = "result['start']", "result['end']", "result['size']"
+contract(
+    "cnvlib/segmentation/haar.py::haarSeg",
+    params=dict(I=VecT(Real), breaksFdrQ=Real, W=Opt(VecT(Real)), rawI=Lit(None)),
+    returns=DictT(start=VecT(Int), end=VecT(Int), size=VecT(Int), mean=VecT(Real)),
+    requires=["len(I) >= 1"],
+    ensures=[
+        ("one_row_per_segment", "len(result['start']) >= 1 and len(result['end']) == len(result['start']) and len(result['size']) == len(result['start']) and len(result['mean']) == len(result['start'])"),
+        ("within_the_probes", "forall(0, len(result['start']), lambda j: 0 <= result['start'][j] and result['end'][j] <= len(I) - 1)"),
+        ("segments_tile_the_probes", "result['start'][0] == 0 and result['end'][len(result['end']) - 1] == len(I) - 1 and forall(0, len(result['start']), lambda j: result['start'][j] <= result['end'][j] and "
+                                     "result['size'][j] == result['end'][j] - result['start'][j] + 1 and implies(j + 1 < len(result['start']), result['start'][j + 1] == result['end'][j] + 1))"),
+    ],
+    props=("C03",), domain="skip",
+    canaries=[("end_not_inclusive", '"end": segEd - 1,', '"end": segEd,'),
+              ("first_probe_left_out", "segSt = np.insert(breakpoints, 0, 0)", "segSt = np.insert(breakpoints, 0, 1)"),
+              ("last_probe_left_out", "segEd = np.append(breakpoints, len(I))", "segEd = np.append(breakpoints, len(I) - 1)")],
+    notes="HaarSeg as a whole (five levels unrolled, with or without weights, no raw-intensity compensation): whatever the wavelet numerics "
+          "return, the reported segments tile the probes 0..n-1 -- first start 0, last end n-1, each segment starting right "
+          "after the previous one, size = end - start + 1 >= 1; rests on the proved contracts of FindLocalPeaks and UnifyLevels",
+)
+
+_ARM = ObjT("CopyNumArray", data=TabT(opt=("weight",), index="any", chromosome=CHROM, start=Int, end=Int, gene=GENE, log2=Real, weight=Real), meta=DictT())
+contract("cnvlib/cnary.py::CopyNumArray.smooth_log2", params=dict(self=_ARM, bandwidth=Lit(None), by_arm=Lit(True)),
+         returns=VecT(Real), trusted=True, requires=[], ensures=[("one_value_per_bin", "len(result) == len(self.data)")],
+         props=(), domain="skip", notes="assumed: one smoothed value per bin (the smoothers are C19's business)")
+
+contract(
+    "cnvlib/segmentation/haar.py::one_chrom",
+    params=dict(cnarr=_ARM, fdr_q=Real, chrom=CHROM),
+    returns=TabT(index="range", chromosome=CHROM, start=Int, end=Int, log2=Real, gene=Str, probes=Int),
+    requires=["len(cnarr.data) >= 1"],
+    ensures=[
+        ("at_least_one_segment", "len(result) >= 1"),
+        # the segments are runs of consecutive bins lo(j)..hi(j) that tile the arm's bins: each from its first bin's start
+        # to its last bin's end, probes = the number of bins in the run
+        ("segments_are_runs_of_bins", "forall(0, len(result), lambda j: let(lambda lo, hi: 0 <= lo and lo <= hi and hi < len(cnarr.data) and "
+                                      "result.start[j] == cnarr.data.start[lo] and result.end[j] == cnarr.data.end[hi] and result.probes[j] == hi - lo + 1 and "
+                                      "result.chromosome[j] == chrom and "
+                                      "implies(j == 0, lo == 0) and implies(j == len(result) - 1, hi == len(cnarr.data) - 1) and "
+                                      "implies(j + 1 < len(result), local_results['start'][j + 1] == hi + 1), local_results['start'][j], local_results['end'][j]))"),
+    ],
+    ghost=dict(locals_visible=True),
+    props=("C03",), domain="skip",
+    canaries=[("end_taken_from_the_start_column", '"end": cnarr["end"].values.take(results["end"]),', '"end": cnarr["start"].values.take(results["end"]),'),
+              ("end_of_the_first_bin", '"end": cnarr["end"].values.take(results["end"]),', '"end": cnarr["end"].values.take(results["start"]),'),
+              ("probes_is_the_last_index", '"probes": results["size"],', '"probes": results["end"],')],
+    notes="one chromosome arm through HaarSeg: every reported segment is a run of consecutive bins (local_results['start'][j] .. "
+          "local_results['end'][j], the probe indices HaarSeg returns) from its first bin's start to its last bin's end with probes = "
+          "the number of bins in the run; the runs tile the arm's bins in order; smooth_log2 is assumed (one value per bin)",
 )
